@@ -4,6 +4,8 @@ import (
 	"bytes"
 	"crypto/ecdsa"
 	"fmt"
+	"math"
+	"math/big"
 
 	cose "github.com/veraison/go-cose"
 
@@ -555,4 +557,38 @@ func nonCanonicalDeep(dec string, b []byte) string {
 		}
 	}
 	return ""
+}
+
+// bignumBeyondInt64 reports whether the item holds, at any depth, a bignum
+// (tag 2 or 3 over a byte string) whose magnitude is above MaxInt64 and fits
+// 64 bits: the values that have an 8-byte integer encoding which is outside
+// "integers within int64".
+func bignumBeyondInt64(it *refcbor.Item) bool {
+	if it == nil {
+		return false
+	}
+	if it.Major == refcbor.MTag && (it.Arg == 2 || it.Arg == 3) && len(it.Elems) == 1 && it.Elems[0].Major == refcbor.MBstr {
+		n := new(big.Int).SetBytes(it.Elems[0].Data)
+		if n.IsUint64() && n.Uint64() > math.MaxInt64 {
+			return true
+		}
+	}
+	for _, e := range it.Elems {
+		if bignumBeyondInt64(e) {
+			return true
+		}
+	}
+	return false
+}
+
+func bignumBeyondInt64InProtected(dec string, b []byte) bool {
+	for _, p := range protectedItems(dec, b) {
+		if len(p.Data) == 0 {
+			continue
+		}
+		if it, err := refcbor.ParseOne(p.Data); err == nil && bignumBeyondInt64(it) {
+			return true
+		}
+	}
+	return false
 }
